@@ -35,7 +35,12 @@ def crc_of_view(view: ABytes, n=None, c0=crc_spec.INIT):
 def crc_fold(parts, c0=crc_spec.INIT):
     """CRC register over a concatenation of BytesVal / ABytes parts (uninterpreted, congruent)."""
     c = bv16(c0)
+    flat = []
     for p in parts:
+        # a tuple / list of buffers stands for their concatenation (a checksum calculator that accepts its data in
+        # parts is held to the CRC of the joined bytes: contract crc16.calculate.parts)
+        flat.extend(p if isinstance(p, (tuple, list)) else [p])
+    for p in flat:
         if isinstance(p, (bytes, bytearray)):
             p = BytesVal.of(p)
         if isinstance(p, BytesVal):
